@@ -84,6 +84,18 @@ Qed.
 Theorem chunk_attempts_sound l : Forall2 att_ok l (snd (attempts [] l)).
 Proof. apply attempts_ok. constructor. Qed.
 
+(* after a restart on ANY file content: only chunks that hash to their checkpoint count as present, so the
+   same guarantee holds for every sequence of attempts that follows *)
+Lemma reopen_legit disk : legit (reopen dsha cps disk).
+Proof.
+  unfold legit, reopen. apply Forall_forall. intros [k c] Hin. apply filter_In in Hin. destruct Hin as [_ Hf].
+  cbn [fst snd] in *. unfold matches_checkpoint.
+  destruct (nth_error cps k) as [cp|]; [|discriminate]. apply bytes_eqb_eq in Hf. rewrite Hf. reflexivity.
+Qed.
+
+Theorem chunk_reopen_sound disk l : Forall2 att_ok l (snd (attempts (reopen dsha cps disk) l)).
+Proof. apply attempts_ok, reopen_legit. Qed.
+
 (* the header read at a height inside chunk k of the table is the corresponding header of that chunk *)
 Lemma nth_firstn_lt {A} (l : list A) : forall n i d, (i < n)%nat -> nth i (firstn n l) d = nth i l d.
 Proof.
